@@ -479,6 +479,14 @@ class ConnRun:
         self.loop.set_time(target)
         self.settle()
 
+    def stall(self, ms: int) -> None:
+        """The event loop is blocked for ms (something else hogs the thread): time passes, the timers that fall due
+        meanwhile fire late - all at the instant the loop runs again."""
+        self.settle()
+        self.loop.set_time(self.loop.time() + ms / 1000.0)
+        self.inject("EnvStall", {"ms": int(ms)}, lambda: None)
+        self.settle()
+
     def advance_excl(self, ms: int) -> None:
         """Advance to now+ms firing only the timers due strictly before that instant: the next
         injected event runs at that instant BEFORE the timers due at it (both orders at equal instants)."""
@@ -524,6 +532,8 @@ def run_schedule(cfg: dict, schedule: list, seed: int = 0) -> dict:
                 r.advance(it[1])
             elif kind == "advx":
                 r.advance_excl(it[1])
+            elif kind == "stall":
+                r.stall(it[1])
             elif kind == "noname":
                 r.noise_noname = bool(it[1])
         return r.finish()
@@ -760,6 +770,7 @@ def c10_family(quick: bool, rng: random.Random, n: int) -> list:
         p_send = rng.choice((0.0, 0.0, 0.05, 0.2))
         switch = rng.randrange(0, periods * (K // g))
         p_flow = rng.choice((0.0, 0.0, 0.01, 0.05))
+        p_stall = rng.choice((0.0, 0.0, 0.005, 0.02))
         paused = False
         st = happy_connect(cfg)
         steps = periods * (K // g)
@@ -780,6 +791,15 @@ def c10_family(quick: bool, rng: random.Random, n: int) -> list:
                 pending = 0
                 st.append(("ev", "send", "SwitchCommandRequest"))
                 st.append(("idle",))
+            elif p_stall and rng.random() < p_stall:
+                # the loop is blocked for longer than a keep-alive period: the tick runs late, the next one a full period
+                # after it - no catching up, no ping for a peer that was heard from in between
+                st.append(("adv", pending))
+                pending = 0
+                st.append(("stall", rng.choice((K + K // 4, 2 * K + K // 2, 3 * K, K // 2))))
+                if rng.random() < 0.5:
+                    st.append(("ev", "chunk", [rng.choice(KA_TRAFFIC[:2])]))
+                    st.append(("idle",))
             elif p_flow and rng.random() < p_flow:
                 # flow-control signals of the transport are no sign of life and no excuse for silence
                 st.append(("advx" if rng.random() < 0.5 else "adv", pending))
